@@ -127,30 +127,32 @@ Print Assumptions C16_unused_rules_are_listed.
 (* execution PUT: an engine call is issued only for PAUSED (pause), RUNNING (resume) or a
    completed state (stop), never together with a description, and then the controller
    writes nothing itself *)
-Theorem C16_execution_put : forall present st desc env,
-  o_call (exec_put present st desc env) <> NoCall ->
+Theorem C16_execution_put : forall present cur st desc env,
+  o_call (exec_put present cur st desc env) <> NoCall ->
   present = true /\ desc = false /\ st <> "" /\
-  o_upd_desc (exec_put present st desc env) = false /\
-  o_upd_env (exec_put present st desc env) = false /\
-  o_status (exec_put present st desc env) = 200 /\
-  ( (parse_state st = PAUSED /\ o_call (exec_put present st desc env) = PauseWf) \/
-    (parse_state st = RUNNING /\ o_call (exec_put present st desc env) = ResumeWf env) \/
+  o_upd_desc (exec_put present cur st desc env) = false /\
+  o_upd_env (exec_put present cur st desc env) = false /\
+  o_status (exec_put present cur st desc env) = 200 /\
+  ( (parse_state st = PAUSED /\ o_call (exec_put present cur st desc env) = PauseWf) \/
+    (parse_state st = RUNNING /\ o_call (exec_put present cur st desc env) = ResumeWf env) \/
     (is_completed (parse_state st) = true /\ env = false /\
-     o_call (exec_put present st desc env) = StopWf (parse_state st)) ).
+     o_call (exec_put present cur st desc env) = StopWf (parse_state st)) ).
 Proof. exact exec_put_call. Qed.
 Print Assumptions C16_execution_put.
 
-(* description (or env) is written only when no state is requested *)
-Theorem C16_execution_put_description_alone : forall present st desc env,
-  o_upd_desc (exec_put present st desc env) = true \/ o_upd_env (exec_put present st desc env) = true ->
-  st = "" /\ o_call (exec_put present st desc env) = NoCall /\ present = true.
+(* description (or env) is written only when no state is requested; env only on an
+   IDLE / PAUSED / ERROR execution *)
+Theorem C16_execution_put_description_alone : forall present cur st desc env,
+  o_upd_desc (exec_put present cur st desc env) = true \/ o_upd_env (exec_put present cur st desc env) = true ->
+  st = "" /\ o_call (exec_put present cur st desc env) = NoCall /\ present = true /\
+  (env = true -> env_updatable cur = true).
 Proof. exact exec_put_description_alone. Qed.
 Print Assumptions C16_execution_put_description_alone.
 
 (* any other requested state (IDLE, WAITING, DELAYED, unknown text): 400, nothing happens *)
-Theorem C16_execution_put_other_state : forall st desc env,
+Theorem C16_execution_put_other_state : forall cur st desc env,
   st <> "" -> parse_state st <> PAUSED -> parse_state st <> RUNNING -> is_completed (parse_state st) = false ->
-  exec_put true st desc env = reject 400.
+  exec_put true cur st desc env = reject 400.
 Proof. exact exec_put_other_state_rejected. Qed.
 Print Assumptions C16_execution_put_other_state.
 
@@ -160,17 +162,48 @@ Theorem C16_completed_states : forall s,
 Proof. exact completed_states. Qed.
 Print Assumptions C16_completed_states.
 
-(* execution DELETE: deleted iff present and (force or completed) *)
-Theorem C16_execution_delete : forall present force cur,
-  o_deleted (exec_delete present force cur) = true <->
-  present = true /\ (force = true \/ is_completed cur = true).
+(* execution DELETE: deleted iff present and (the force parameter converts to True, or completed);
+   cv = how the source turns the parameter text into a boolean (Gen: exec_delete_force_conv) *)
+Theorem C16_execution_delete : forall cv present force cur,
+  o_deleted (exec_delete cv present force cur) = true <->
+  present = true /\ (forced cv force = true \/ is_completed cur = true).
 Proof. exact exec_delete_guard. Qed.
 Print Assumptions C16_execution_delete.
 
-Theorem C16_execution_delete_unfinished : forall cur,
-  is_completed cur = false -> exec_delete true false cur = reject 403.
+Theorem C16_execution_delete_unfinished : forall cv cur force,
+  is_completed cur = false -> forced cv force = false -> exec_delete cv true force cur = reject 403.
 Proof. exact exec_delete_unfinished. Qed.
 Print Assumptions C16_execution_delete_unfinished.
+
+(* "unfinished executions are not deletable without force", with force as the client means it:
+   holds for every parameter text that the conversion reads as meant ... *)
+Theorem C16_execution_delete_without_force_conditional : forall cv present force cur,
+  forced cv force = intended_force force ->
+  is_completed cur = false -> intended_force force = false ->
+  o_deleted (exec_delete cv present force cur) = false.
+Proof. exact exec_delete_without_force_conditional. Qed.
+Print Assumptions C16_execution_delete_without_force_conditional.
+
+(* ... is refuted at full strength for wsme's bool(text) conversion of a parameter declared
+   `bool`: ?force=false on a RUNNING execution deletes it ... *)
+Theorem C16_execution_delete_without_force_refuted : exists force cur,
+  intended_force force = false /\ is_completed cur = false /\
+  o_deleted (exec_delete ConvPyBool true force cur) = true /\
+  o_status (exec_delete ConvPyBool true force cur) = 204.
+Proof. exact exec_delete_without_force_refuted. Qed.
+Print Assumptions C16_execution_delete_without_force_refuted.
+
+(* ... and for the conversion the extractor found in the source exactly one of the two holds
+   (the implementation-side oracle reports the witness while it is the second) *)
+Theorem C16_execution_delete_in_source :
+  (exec_delete_force_conv = ConvStrutils /\
+     forall present force cur, is_completed cur = false -> intended_force force = false ->
+       o_deleted (exec_delete exec_delete_force_conv present force cur) = false) \/
+  (exec_delete_force_conv = ConvPyBool /\
+     exists force cur, intended_force force = false /\ is_completed cur = false /\
+       o_deleted (exec_delete exec_delete_force_conv true force cur) = true).
+Proof. exact exec_delete_source. Qed.
+Print Assumptions C16_execution_delete_in_source.
 
 (* task PUT: the engine is called only for a task in ERROR, towards RUNNING or SKIPPED;
    RUNNING needs the reset field, and reset=false only for with-items tasks *)
@@ -222,10 +255,10 @@ Print Assumptions C16_action_delete.
 
 (* a refusing decision writes nothing and calls nothing *)
 Theorem C16_refusals_write_nothing :
-  (forall p st d e, o_status (exec_put p st d e) <> 200 ->
-     exec_put p st d e = reject (o_status (exec_put p st d e))) /\
-  (forall p f c, o_status (exec_delete p f c) <> 204 ->
-     exec_delete p f c = reject (o_status (exec_delete p f c))) /\
+  (forall p cu st d e, o_status (exec_put p cu st d e) <> 200 ->
+     exec_put p cu st d e = reject (o_status (exec_put p cu st d e))) /\
+  (forall cv p f c, o_status (exec_delete cv p f c) <> 204 ->
+     exec_delete cv p f c = reject (o_status (exec_delete cv p f c))) /\
   (forall p n w st c r wi, o_status (task_put p n w st c r wi) <> 200 ->
      task_put p n w st c r wi = reject (o_status (task_put p n w st c r wi))).
 Proof. exact refusals_write_nothing. Qed.
@@ -243,16 +276,19 @@ Example C16_nonvacuous :
    run effs (mkEnv (fun _ => true) (fun _ => false) (fun _ => false)) 0 body 7 = (403, 7) /\
    run effs (mkEnv (fun _ => false) (fun _ => false) (fun _ => false)) 0 body 7 = (200, 8) /\
    blocked effs (mkEnv (fun _ => true) (fun _ => false) (fun _ => false)) = true) /\
-  o_call (exec_put true "PAUSED" false false) = PauseWf /\
-  o_call (exec_put true "RUNNING" false true) = ResumeWf true /\
-  o_call (exec_put true "ERROR" false false) = StopWf ERROR /\
-  exec_put true "IDLE" false false = reject 400 /\
-  exec_put true "PAUSED" true false = reject 400 /\
-  o_upd_desc (exec_put true "" true false) = true /\
+  o_call (exec_put true RUNNING "PAUSED" false false) = PauseWf /\
+  o_call (exec_put true PAUSED "RUNNING" false true) = ResumeWf true /\
+  o_call (exec_put true RUNNING "ERROR" false false) = StopWf ERROR /\
+  exec_put true RUNNING "IDLE" false false = reject 400 /\
+  exec_put true RUNNING "PAUSED" true false = reject 400 /\
+  o_upd_desc (exec_put true RUNNING "" true false) = true /\
+  exec_put true RUNNING "" false true = reject 403 /\ o_upd_env (exec_put true PAUSED "" false true) = true /\
   o_call (task_put true true true "RUNNING" ERROR (Some true) false) = Rerun true false /\
   o_call (task_put true true true "SKIPPED" ERROR None false) = Rerun false true /\
   task_put true true true "RUNNING" RUNNING (Some true) false = reject 400 /\
   o_call (action_put action_supported_states "SUCCESS") = ActionComplete "data" /\
   action_put action_supported_states "IDLE" = reject 400 /\
-  o_deleted (exec_delete true false RUNNING) = false /\ o_deleted (exec_delete true true RUNNING) = true.
-Proof. vm_compute. repeat split; repeat constructor. Qed.
+  (forall cv, o_deleted (exec_delete cv true None RUNNING) = false /\
+              o_deleted (exec_delete cv true (Some "true") RUNNING) = true /\
+              forced cv (Some "true") = intended_force (Some "true") /\ forced cv None = intended_force None).
+Proof. vm_compute. repeat split; repeat constructor; try (match goal with x : force_conv |- _ => destruct x; reflexivity end). Qed.
